@@ -212,3 +212,30 @@ def four_body_config(M0, mf, spins, chains, data_opts=None):
     if data_opts:
         data.update(data_opts)
     return {"data": data, "decay": decay, "particle": particle}
+
+
+def replay_failing_input(rep):
+    """re-run the implementation on a stored failing input (config, params, events[, transform]) and print both sides"""
+    import json
+    fi = rep.get("failing_input") or {}
+    print(json.dumps({k: v for k, v in rep.items() if k != "broken"}, indent=1, default=str)[:4000])
+    cfg = fi.get("config") or fi.get("variant_config")
+    if not cfg or "events" not in fi or "params" not in fi:
+        print("(no executable failing input stored; see 'broken' entries)")
+        for b in rep.get("broken", [])[:5]:
+            print(" -", b.get("layer"), b.get("case"), str(b.get("detail"))[:200])
+        return 0
+    from tf_pwa.config_loader import ConfigLoader
+    p4 = {k: np.array(v) for k, v in fi["events"].items()}
+    outs = {}
+    for name, c in (("config", cfg), ("base_config", fi.get("base_config"))):
+        if c is None:
+            continue
+        config = ConfigLoader(c); amp = config.get_amplitude(); amp.set_params(fi["params"])
+        outs[name] = np.array(amp(config.data.cal_angle(p4))).tolist()
+        if fi.get("transform_args"):
+            kw = {k: (np.array(v) if k != "parity" else v) for k, v in fi["transform_args"].items()}
+            q4 = lorentz_transform(p4, **kw)
+            outs[name + "@Lambda_p"] = np.array(amp(config.data.cal_angle(q4))).tolist()
+    print("implementation now:", json.dumps(outs, indent=1))
+    return 0
